@@ -584,8 +584,54 @@ func TestVerifUnivExec(t *testing.T) {
 			kinds = append(kinds, m.K)
 		}
 		out.Emit(vfM{"a": "reset", "members": kinds})
-		out.Emit(vfM{"a": "cmp", "fresh": uSorted(fresh), "reused": uSorted(reused)})
+		pf, pr, only := uPair(fresh, reused)
+		out.Emit(vfM{"a": "cmp", "fresh": pf, "reused": pr, "unpaired": only})
 	}
+}
+
+// uKey identifies an emission independently of the caller-derived bytes it carries: media packets by (kind, SSRC, number),
+// RTX packets by the original number in their prefix, FEC packets by SN base + mask (bytes 16..23 of the FlexFEC-03 header).
+func uKey(v vfM) string {
+	pl, _ := v["pl"].([]int)
+	pt, _ := v["pt"].(int)
+	head := []int{}
+	switch pt {
+	case 97:
+		if len(pl) >= 2 {
+			head = pl[:2]
+		}
+	case 98:
+		if len(pl) >= 24 {
+			head = pl[16:24]
+		}
+	}
+
+	return fmt.Sprint(v["k"], v["ssrc"], pt, v["seq"], head)
+}
+
+// uPair aligns the emissions of the two runs by key; asynchronous emissions that only one run produced (a retransmission cut off
+// by Close, a paced packet still queued) are counted, not compared.
+func uPair(a, b []vfM) ([]vfM, []vfM, int) {
+	idx := map[string][]vfM{}
+	for _, v := range b {
+		idx[uKey(v)] = append(idx[uKey(v)], v)
+	}
+	ra, rb := []vfM{}, []vfM{}
+	only := 0
+	for _, v := range uSorted(a) {
+		k := uKey(v)
+		if l := idx[k]; len(l) > 0 {
+			ra, rb = append(ra, v), append(rb, l[0])
+			idx[k] = l[1:]
+		} else {
+			only++
+		}
+	}
+	for _, l := range idx {
+		only += len(l)
+	}
+
+	return ra, rb, only
 }
 
 func uSorted(in []vfM) []vfM {
